@@ -186,6 +186,16 @@ def rule_validate(ck: Check, repo: Repo) -> None:
         for c in ast.walk(fn):
             if isinstance(c, ast.Call) and ast.unparse(c.func) == "isinstance" and c.args and isinstance(c.args[0], ast.Name):
                 checked.add(c.args[0].id)
+        # a type check has a consequence: the statement guarded by the failed check raises (or leaves the function)
+        for node in ast.walk(fn):
+            if isinstance(node, ast.If) and any(isinstance(c, ast.Call) and ast.unparse(c.func) == "isinstance" and c.args
+                                                 and isinstance(c.args[0], ast.Name) and c.args[0].id in tainted for c in ast.walk(node.test)):
+                leaves = any(isinstance(x, (ast.Raise, ast.Return)) for b in (node.body, node.orelse) for st2 in b for x in ast.walk(st2))
+                r.instance(f"{q}:guard:{ast.unparse(node.test)[:50]}", {"function": q, "test": ast.unparse(node.test)[:90], "rejects": leaves}, q)
+                if not leaves:
+                    r.violation(q, f"the type check `{ast.unparse(node.test)[:60]}` has no consequence",
+                                "neither branch raises or returns: a wrong-typed value passes the check and is iterated / indexed further"
+                                " down - a traceback instead of a parse error naming the file", repo.loc(node))
         for name, st in tainted.items():
             uses = []
             for node in ast.walk(fn):
